@@ -38,21 +38,22 @@ PROPS = {
     },
     "C02": {
         "level": "proof",
-        "lean_modules": ["ApdVerif.Props.C02", "ApdVerif.Props.GenTieRound", "ApdVerif.Props.GenTieCond"],
-        "theorem_prefixes": ["C02_", "GenTie_"],
+        "lean_modules": ["ApdVerif.Props.C02", "ApdVerif.Props.GenTieRound", "ApdVerif.Props.GenTieCond", "ApdVerif.Props.TransLog"],
+        "theorem_prefixes": ["C02_", "GenTie_", "C02T_"],
         "streams": [
             {"stream": "arith", "ops": ["add", "sub", "mul", "quo", "quoint", "rem", "round", "quantize", "rtie", "reduce"],
              "n": {"quick": 40000, "thorough": 600000}},
             {"stream": "alias", "ops": ["add", "sub", "mul", "quo", "round", "reduce", "sqrt"], "n": {"quick": 5000, "thorough": 80000}, "projections": []},
             {"stream": "roots", "n": {"quick": 5000, "thorough": 80000}, "projections": []},
+            {"stream": "translog", "n": {"quick": 6000, "thorough": 80000}, "projections": ["flags", "tape"]},
         ],
         "projections": ["flags"],
         "oracle_tags": ["C02"],
     },
     "C07": {
         "level": "proof",
-        "lean_modules": ["ApdVerif.Props.C07", "ApdVerif.Props.GenTieRound", "ApdVerif.Props.GenTieMisc"],
-        "theorem_prefixes": ["C07_", "GenTie_"],
+        "lean_modules": ["ApdVerif.Props.C07", "ApdVerif.Props.GenTieRound", "ApdVerif.Props.GenTieMisc", "ApdVerif.Props.TransLog"],
+        "theorem_prefixes": ["C07_", "GenTie_", "C07T_"],
         "streams": [
             {"stream": "arith", "ops": ["add", "sub", "mul", "quo", "abs", "neg", "round", "rem", "reduce", "quantize", "quoint"],
              "n": {"quick": 40000, "thorough": 600000}},
@@ -128,8 +129,8 @@ COMPOSITE_NOTE = "Exp/Ln/Log10/Pow: only the special-value prologues are modelle
 PROPS.update({
     "C03": {
         "level": "proof",
-        "lean_modules": ["ApdVerif.Props.C03", "ApdVerif.Props.GenTieCond"],
-        "theorem_prefixes": ["C03_", "GenTie_"],
+        "lean_modules": ["ApdVerif.Props.C03", "ApdVerif.Props.GenTieCond", "ApdVerif.Props.TransLog"],
+        "theorem_prefixes": ["C03_", "GenTie_", "C03T_"],
         "streams": [{"stream": "traps", "n": {"quick": 30000, "thorough": 500000}},
                     {"stream": "errdec", "n": {"quick": 15000, "thorough": 200000}}],
         "projections": ["traps", "errdec"],
@@ -188,8 +189,8 @@ PROPS.update({
 })
 PROPS["C08"] = {
     "level": "proof",
-    "lean_modules": ["ApdVerif.Props.C08"],
-    "theorem_prefixes": ["C08_"],
+    "lean_modules": ["ApdVerif.Props.C08", "ApdVerif.Props.TransLog"],
+    "theorem_prefixes": ["C08_", "C08T_"],
     "streams": [{"stream": "specials", "n": {"quick": 20000, "thorough": 300000}},
                 {"stream": "arith", "ops": ["add", "sub"], "n": {"quick": 8000, "thorough": 100000}},
                 {"stream": "alias", "n": {"quick": 12000, "thorough": 150000}, "projections": []}],
@@ -230,8 +231,8 @@ PROPS.update({
 })
 PROPS["C12"] = {
     "level": "other",
-    "lean_modules": ["ApdVerif.Props.C12", "ApdVerif.Props.C12Interval", "ApdVerif.Props.GenTieConsts"],
-    "theorem_prefixes": ["C12_", "C12I_", "GenTie_ln10", "GenTie_constVals"],
+    "lean_modules": ["ApdVerif.Props.C12", "ApdVerif.Props.C12Interval", "ApdVerif.Props.GenTieConsts", "ApdVerif.Props.TransLog"],
+    "theorem_prefixes": ["C12_", "C12I_", "GenTie_ln10", "GenTie_constVals", "C12T_"],
     "streams": [{"stream": "translog", "n": {"quick": 25000, "thorough": 500000}}],
     "projections": ["value", "repr", "flags", "err", "tape", "consts"],
     "oracle_tags": ["C12"],
